@@ -272,6 +272,26 @@ namespace bluetoe {
                 assert( this->state() == details::sm_pairing_state::idle );
                 this->state( details::sm_pairing_state::lesc_pairing_requested );
                 remote_io_caps_ = remote_io_caps;
+                has_remote_dhkey_check_ = false;
+            }
+
+            /**
+             * @brief stores a DHKey check that was received while waiting for the user's response
+             */
+            void remote_dhkey_check( const std::uint8_t* dhkey_check )
+            {
+                std::copy( dhkey_check, dhkey_check + remote_dhkey_check_.size(), remote_dhkey_check_.begin() );
+                has_remote_dhkey_check_ = true;
+            }
+
+            bool has_remote_dhkey_check() const
+            {
+                return has_remote_dhkey_check_;
+            }
+
+            const uint128_t& remote_dhkey_check() const
+            {
+                return remote_dhkey_check_;
             }
 
             void public_key_exchanged(
@@ -367,6 +387,8 @@ namespace bluetoe {
             uint128_t                           remote_nonce_;
             io_capabilities_t                   remote_io_caps_;
             uint128_t                           long_term_key_;
+            uint128_t                           remote_dhkey_check_;
+            bool                                has_remote_dhkey_check_;
         };
 
         template < class OtherConnectionData >
@@ -523,6 +545,26 @@ namespace bluetoe {
                 assert( this->state() == details::sm_pairing_state::idle );
                 this->state( details::sm_pairing_state::lesc_pairing_requested );
                 state_data_.lesc_state.remote_io_caps_ = remote_io_caps;
+                state_data_.lesc_state.has_remote_dhkey_check_ = false;
+            }
+
+            /**
+             * @brief stores a DHKey check that was received while waiting for the user's response
+             */
+            void remote_dhkey_check( const std::uint8_t* dhkey_check )
+            {
+                std::copy( dhkey_check, dhkey_check + state_data_.lesc_state.remote_dhkey_check_.size(), state_data_.lesc_state.remote_dhkey_check_.begin() );
+                state_data_.lesc_state.has_remote_dhkey_check_ = true;
+            }
+
+            bool has_remote_dhkey_check() const
+            {
+                return state_data_.lesc_state.has_remote_dhkey_check_;
+            }
+
+            const uint128_t& remote_dhkey_check() const
+            {
+                return state_data_.lesc_state.remote_dhkey_check_;
             }
 
             const uint128_t& local_nonce() const
@@ -608,6 +650,8 @@ namespace bluetoe {
                     uint128_t                   remote_nonce_;
                     io_capabilities_t           remote_io_caps_;
                     enum lesc_pairing_algorithm algorithm;
+                    uint128_t                   remote_dhkey_check_;
+                    bool                        has_remote_dhkey_check_;
                 }                                           lesc_state;
             } state_data_;
         };
